@@ -23,6 +23,9 @@ struct hx_harness {
    * number of operations and depth per tier; the harness takes its operations from vk_choose(K_OP, ...) while inside the prefix */
   int bfs_nops;
   int bfs_depth[2];
+  /* few, heavy configurations: every worker explores every configuration but only the subtrees whose first deviation
+   * sits at a choice point i with i % nshards == shard (the default execution is accounted by shard 0) */
+  int split_dfs;
 };
 
 extern int hx_tier;
